@@ -14,7 +14,7 @@ FUNCS = ['pyg_base._pandas:df_index', 'pyg_base._pandas:_df_index', 'pyg_base._p
 BOUNDS = dict(collections = '2..3 Series of 0..2 rows (thorough 3) with symbolic stamps in a common 7-day window and symbolic values incl. NaN, inside a list, a dict, or a dict holding a nested list, '
                             'mixed with a scalar, a string and None', policies = 'join in {ij, oj, lj, rj, explicit index}, fill method in {None, ffill, bfill}',
               arrays = 'collections of 2..3 bare arrays of symbolic lengths 0..3 with symbolic cells, every join policy')
-OUTSIDE = ['multi-column frames and the column alignment (df_columns / df_recolumn): no DataFrame model', 'the dtype of arrays (the array stand-in has none)', 'tz-aware indices', 'more than 3 rows']
+OUTSIDE = ['multi-column frames and the column alignment (df_columns / df_recolumn)', 'tz-aware indices', 'more than 3 rows']
 ASSUMPTIONS = ['pandas replaced by the minipd model, validated against the real pandas each run (intersection / union, reindex with method and limit as an as-of join on a sorted index, masks)']
 
 JOINS = ['ij', 'oj', 'lj', 'rj']
@@ -98,9 +98,10 @@ def h_arrays(join, k):
         lens = [c.choice('len%d' % i, 4) for i in range(k)]
         arrs = []; cells = []
         for i in range(k):
-            vs = [c.float('a%d.%d' % (i, j), allow = (core.FIN,), halves = 12) for j in range(lens[i])]
+            isint = c.choice('int%d' % i, 2)                       # the dtype of each array is a selector: float or integer cells
+            vs = [(c.int('a%d.%d' % (i, j), -9, 9) if isint else c.float('a%d.%d' % (i, j), allow = (core.FIN,), halves = 12)) for j in range(lens[i])]
             cells.append(vs)
-            arrs.append(minipd.Arr(vs) if c.mode == 'sym' else __import__('numpy').array([float(v) for v in vs], dtype = float))
+            arrs.append(minipd.Arr(vs, dtype = 'int64' if isint else 'float64') if c.mode == 'sym' else __import__('numpy').array([(int(v) if isint else float(v)) for v in vs], dtype = 'int64' if isint else float))
         n = min(lens) if join == 'ij' else max(lens) if join == 'oj' else lens[0] if join == 'lj' else lens[-1]
         c.cover('different-lengths', len(set(lens)) > 1)
         r = Pm.df_sync(list(arrs), join = join)
